@@ -37,7 +37,7 @@ type checkCfg struct {
 }
 
 var realCommon = []string{"manager (service loop, jobs, views)", "builder + gopacket reassembly + libpcap (cgo)", "index writer/reader/merger/search", "query parser", "converters (cache file, process pool, JSON protocol) with a real child process", "tools"}
-var stubCommon = []string{"job scheduling and loop barriers (controller)", "wall clock (simrt.Now)", "tag event ticker", "map iteration order (seeded)", "runtime.NumCPU", "captured traffic (netsim)", "watch-directory ingestion, PCAP-over-IP sockets, webhooks, websocket fan-out: not exercised"}
+var stubCommon = []string{"job scheduling and loop barriers (controller)", "wall clock (simrt.Now)", "tag event ticker", "map iteration order (seeded)", "runtime.NumCPU", "captured traffic (netsim)", "converter directory watcher (inotify): watches nothing, its remove/create/change closures are delivered by the controller", "watch-directory ingestion, PCAP-over-IP sockets, webhooks, websocket fan-out: not exercised"}
 
 var checks = map[string]checkCfg{
 	"C05": {Engine: "bsim", Engine2: "mgrsim", Engine2Every: 2, QuickS: 35, ThoroughS: 900, Level: "exploration",
@@ -46,7 +46,7 @@ var checks = map[string]checkCfg{
 		Stub:   []string{"network path and capture tap (netsim)", "wall clock", "map order", "second engine: job scheduling, clock, map order (controller)"},
 		Assume: []string{"netsim ground truth is what the endpoints exchanged", "well-formed traffic only: no capture loss, no conflicting overlaps, no IP fragments, handshake-complete TCP"}},
 	"C08": {Engine: "bsim", Engine2: "mgrsim", Engine2Every: 2, QuickS: 60, ThoroughS: 900, Level: "exploration",
-		Rule:   "one case = one seeded capture set and 2-5 import histories (partition into batches x arrival order chronological/reversed/shuffled x importer restarts x snapshot files kept or dropped x snapshot interval 5..200 packets or shipped 100000), each compared with a one-shot import up to stream numbering, plus id stability after every batch. distinct = distinct hash of (capture shape, histories); non-trivial = more than one file or a conversation spanning files. Every second worker runs mgrsim: the captures are imported through the service in seeded batches and orders with merges, restarts and disk errors in between, and every view is compared with a one-shot import of the captures reported processed",
+		Rule:   "one case = one seeded capture set and 2-5 import histories (partition into batches x arrival order chronological/reversed/shuffled x importer restarts x snapshot files kept or dropped x snapshot interval 5..200 packets or shipped 100000), each compared with a one-shot import up to stream numbering, plus id stability after every batch; in a quarter of the histories the snapshot file of one batch cannot be created; a UDP flow that falls silent for longer than the inactivity timeout and resumes. distinct = distinct hash of (capture shape, histories); non-trivial = more than one file or a conversation spanning files. Every second worker runs mgrsim: the captures are imported through the service in seeded batches and orders with merges, restarts and disk errors in between, and every view is compared with a one-shot import of the captures reported processed",
 		Real:   []string{"builder.FromPcap / builder.New", "snapshots save/load", "index writer/reader", "libpcap", "second engine: the whole manager"},
 		Stub:   []string{"network path and capture tap (netsim)", "wall clock", "map order", "snapshot interval knob"},
 		Assume: []string{"the one-shot import is the reference (tied to ground truth by C05)"}},
